@@ -170,6 +170,11 @@ pub fn resp_body(id: u32, origin: &str) -> Vec<u8> {
 
 /// The handler used by the scenario servers: logs entry, yields, reads the whole request body,
 /// answers with an echo in two streamed chunks.
+/// Every scripted response carries this `date` header so that hyper does not add the current time:
+/// the wall clock would otherwise decide the HPACK encoding (a repeated date is one indexed byte, a
+/// new second is a fresh 24-byte literal) and with it the number of small writes — i.e. the schedule.
+pub const FIXED_DATE: &str = "Thu, 01 Jan 2026 00:00:00 GMT";
+
 pub async fn handler(obs: Obs, origin: &'static str, req: http::Request<hyperdriver::Body>) -> Result<http::Response<ChunkBody>, Infallible> {
     let id: u32 = req.headers().get("x-id").and_then(|v| v.to_str().ok()).and_then(|s| s.parse().ok()).unwrap_or(0);
     obs.lock().unwrap().handler_entered.push(id);
@@ -179,7 +184,7 @@ pub async fn handler(obs: Obs, origin: &'static str, req: http::Request<hyperdri
         Ok(c) => c.to_bytes().to_vec(),
         Err(e) => {
             obs.lock().unwrap().notes.push(format!("handler {id}: body error {e}"));
-            return Ok(http::Response::builder().status(400).body(ChunkBody::new(&[])).unwrap());
+            return Ok(http::Response::builder().status(400).header("date", FIXED_DATE).body(ChunkBody::new(&[])).unwrap());
         }
     };
     obs.lock().unwrap().seen.insert(
@@ -198,6 +203,7 @@ pub async fn handler(obs: Obs, origin: &'static str, req: http::Request<hyperdri
     first.extend_from_slice(&data);
     let resp = http::Response::builder()
         .status(200)
+        .header("date", FIXED_DATE)
         .header("x-echo-id", id.to_string())
         .header("x-origin", origin)
         .body(ChunkBody::from_vecs(vec![first, b"|tail".to_vec()]))
